@@ -280,8 +280,22 @@ Definition wildmatch (p t : bytes) : bool := wm_eqb (dowild (wm_fuel p) 0 None p
 Record pat := mkPat { p_dom : list bytes; p_segs : list bytes;
                       p_incl : bool; p_dironly : bool; p_isglob : bool }.
 
-Fixpoint trim_right_sp_rev (r : bytes) : bytes :=       (* on the reversed string *)
-  match r with c :: r' => if c =? cSP then trim_right_sp_rev r' else r | [] => [] end.
+(* trimTrailingSpaces: the loop over i with lastSpace; the result is the cut
+   position (Some k: return p[:k]) or None (return p unchanged) *)
+Fixpoint tts_loop (s : bytes) (i : nat) (last : option nat) : option nat :=
+  match s with
+  | [] => last
+  | c :: r =>
+    if c =? cSP then tts_loop r (S i) (match last with None => Some i | Some _ => last end)
+    else if c =? cBSL then
+      match r with
+      | [] => None                                  (* i++; i >= len(p): return p *)
+      | _ :: r' => tts_loop r' (S (S i)) None
+      end
+    else tts_loop r (S i) None
+  end.
+Definition trim_trailing_spaces (p : bytes) : bytes :=
+  match tts_loop p O None with Some k => firstn k p | None => p end.
 
 (* strings.Split(s, "/") *)
 Fixpoint split_slash (s : bytes) (cur : bytes) : list bytes :=
@@ -294,11 +308,7 @@ Definition parse_pattern (line : bytes) (domain : list bytes) : pat :=
   let (incl, p0) := match line with
                     | c :: r => if c =? cBANG then (true, r) else (false, line)
                     | [] => (false, line) end in
-  let r0 := rev p0 in
-  let r1 := match r0 with
-            | a :: b :: _ => if (a =? cSP) && (b =? cBSL) then r0 else trim_right_sp_rev r0
-            | _ => trim_right_sp_rev r0
-            end in
+  let r1 := rev (trim_trailing_spaces p0) in
   let (dironly, r2) := match r1 with
                        | c :: r' => if c =? cSLASH then (true, r') else (false, r1)
                        | [] => (false, r1) end in
@@ -411,8 +421,17 @@ Definition is_space (c : N) : bool :=
 Definition keep_line (s : bytes) : bool :=
   negb (match s with c :: _ => c =? cHASH | [] => false end) && negb (forallb is_space s).
 
+(* the first line loses a leading UTF-8 byte order mark (strings.TrimPrefix on the first token) *)
+Definition strip_bom (s : bytes) : bytes :=
+  match s with
+  | a :: b :: c :: r => if (a =? 239) && (b =? 187) && (c =? 191) then r else s
+  | _ => s
+  end.
+Definition strip_bom_first (ls : list bytes) : list bytes :=
+  match ls with l :: r => strip_bom l :: r | [] => [] end.
+
 Definition read_ignore (content : bytes) (dir : list bytes) : list pat :=
-  map (fun l => parse_pattern l dir) (filter keep_line (scan_lines content [])).
+  map (fun l => parse_pattern l dir) (filter keep_line (strip_bom_first (scan_lines content []))).
 
 (* ------------------------------------------------------------------ *)
 (* Scope                                                               *)
